@@ -39,6 +39,7 @@ import (
 // fl: HandlerList alone
 
 type elem struct {
+	boom    bool // the filter panics
 	bad     bool
 	verdict int
 	resp    bool
@@ -52,6 +53,10 @@ func parseChain(s string) ([]elem, bool) {
 	for _, t := range strings.Split(s, ",") {
 		if t == "x" {
 			out = append(out, elem{bad: true})
+			continue
+		}
+		if t == "p" {
+			out = append(out, elem{boom: true})
 			continue
 		}
 		e := elem{}
@@ -79,10 +84,21 @@ func mkResp(src string) *bfe_http.Response {
 	return res
 }
 
-func execFl(kind string, chain []elem) string {
+func execFl(kind string, chain []elem) (result string) {
 	var calls []string
 	var hl *bfe_module.HandlerList
 	note := func(i int) { calls = append(calls, strconv.Itoa(i)) }
+	// a panicking filter: Filter* has no recover, the panic reaches the caller
+	defer func() {
+		if e := recover(); e != nil {
+			result = fmt.Sprintf("panic calls=%s", joinOr(calls))
+		}
+	}()
+	boom := func(e elem) {
+		if e.boom {
+			panic("boom")
+		}
+	}
 	// a filter of another type than the list's: FilterXxx takes its default branch
 	addBad := func(listIsAccept bool) {
 		if listIsAccept {
@@ -108,7 +124,7 @@ func execFl(kind string, chain []elem) string {
 				}
 				continue
 			}
-			f := func(s *bfe_basic.Session) int { note(i); return e.verdict }
+			f := func(s *bfe_basic.Session) int { note(i); boom(e); return e.verdict }
 			if kind == "acc" {
 				hl.AddAcceptFilter(f)
 			} else {
@@ -132,6 +148,7 @@ func execFl(kind string, chain []elem) string {
 			}
 			hl.AddRequestFilter(func(req *bfe_basic.Request) (int, *bfe_http.Response) {
 				note(i)
+				boom(e)
 				if e.resp {
 					return e.verdict, mkResp(strconv.Itoa(i))
 				}
@@ -152,7 +169,7 @@ func execFl(kind string, chain []elem) string {
 				addBad(false)
 				continue
 			}
-			hl.AddForwardFilter(func(req *bfe_basic.Request) int { note(i); return e.verdict })
+			hl.AddForwardFilter(func(req *bfe_basic.Request) int { note(i); boom(e); return e.verdict })
 		}
 		return fmt.Sprintf("ret=%d calls=%s res=-", hl.FilterForward(nil), joinOr(calls))
 	case "rsp":
@@ -163,7 +180,7 @@ func execFl(kind string, chain []elem) string {
 				addBad(false)
 				continue
 			}
-			hl.AddResponseFilter(func(req *bfe_basic.Request, res *bfe_http.Response) int { note(i); return e.verdict })
+			hl.AddResponseFilter(func(req *bfe_basic.Request, res *bfe_http.Response) int { note(i); boom(e); return e.verdict })
 		}
 		return fmt.Sprintf("ret=%d calls=%s res=-", hl.FilterResponse(nil, nil), joinOr(calls))
 	}
@@ -236,7 +253,7 @@ var pointOf = map[byte]int{'A': bfe_module.HandleAccept, 'B': bfe_module.HandleB
 
 const pointLetters = "ABPLFRQZ"
 
-func execSv(n int, chains map[byte][]elem) string {
+func execSv(n int, chains map[byte][]elem, seg int) string {
 	dir, err := confFiles()
 	if err != nil {
 		return "err:conf"
@@ -260,13 +277,19 @@ func execSv(n int, chains map[byte][]elem) string {
 					req.Redirect.Code = 302
 				}
 			}
+			boom := func() {
+				if e.boom {
+					panic("boom in " + name)
+				}
+			}
 			var fn interface{}
 			switch letter {
 			case 'A', 'Z':
-				fn = func(s *bfe_basic.Session) int { calls = append(calls, name); return e.verdict }
+				fn = func(s *bfe_basic.Session) int { calls = append(calls, name); boom(); return e.verdict }
 			case 'B', 'P', 'L':
 				fn = func(req *bfe_basic.Request) (int, *bfe_http.Response) {
 					calls = append(calls, name)
+					boom()
 					redirect(req)
 					if e.resp || e.verdict == bfe_module.BfeHandlerResponse {
 						return e.verdict, mkResp(name)
@@ -274,10 +297,11 @@ func execSv(n int, chains map[byte][]elem) string {
 					return e.verdict, nil
 				}
 			case 'F':
-				fn = func(req *bfe_basic.Request) int { calls = append(calls, name); redirect(req); return e.verdict }
+				fn = func(req *bfe_basic.Request) int { calls = append(calls, name); boom(); redirect(req); return e.verdict }
 			case 'R', 'Q':
 				fn = func(req *bfe_basic.Request, res *bfe_http.Response) int {
 					calls = append(calls, name)
+					boom()
 					redirect(req)
 					return e.verdict
 				}
@@ -291,7 +315,7 @@ func execSv(n int, chains map[byte][]elem) string {
 	for i := 0; i < n; i++ {
 		fmt.Fprintf(&in, "GET /r%d HTTP/1.1\r\nHost: example.org\r\n\r\n", i)
 	}
-	out, closed, unread := env.Serve(in.Bytes())
+	out, closed, unread := env.ServeChunked(in.Bytes(), seg)
 
 	// read the responses back the way a client would
 	var resps []string
@@ -338,6 +362,15 @@ func exec(op string) string {
 		}
 		return execFl(f[1], chain)
 	}
+	seg := 0
+	if len(f) == 11 && f[0] == "sv" && strings.HasPrefix(f[10], "seg=") {
+		k, err := strconv.Atoi(f[10][4:])
+		if err != nil || k < 1 {
+			return "bad-op"
+		}
+		seg = k
+		f = f[:10]
+	}
 	if len(f) == 10 && f[0] == "sv" {
 		n, err := strconv.Atoi(f[1])
 		if err != nil || n < 0 || n > 4 {
@@ -360,7 +393,7 @@ func exec(op string) string {
 			}
 			chains[t[0]] = ch
 		}
-		return execSv(n, chains)
+		return execSv(n, chains, seg)
 	}
 	return "bad-op"
 }
@@ -389,6 +422,10 @@ func genChain(r *vh.Rand, maxLen, pGoOn int, allowBad, allowResp bool) string {
 	for i := 0; i < n; i++ {
 		if allowBad && r.Chance(1, 12) {
 			parts = append(parts, "x")
+			continue
+		}
+		if allowBad && r.Chance(1, 30) {
+			parts = append(parts, "p")
 			continue
 		}
 		v := genVerdict(r, pGoOn)
@@ -426,7 +463,23 @@ func genSv(r *vh.Rand) string {
 		isReq := k >= 1 && k <= 3
 		parts = append(parts, fmt.Sprintf("%c=%s", pointLetters[k], genChain(r, 3, p, false, isReq)))
 	}
-	return fmt.Sprintf("sv %d %s", n, strings.Join(parts, " "))
+	// a panicking filter somewhere (first / middle / last position of its chain)
+	if r.Chance(1, 10) {
+		k := r.Intn(8)
+		c := strings.Split(strings.SplitN(parts[k], "=", 2)[1], ",")
+		if c[0] == "-" {
+			c = []string{"p"}
+		} else {
+			c[r.Intn(len(c))] = "p"
+		}
+		parts[k] = fmt.Sprintf("%c=%s", pointLetters[k], strings.Join(c, ","))
+	}
+	op := fmt.Sprintf("sv %d %s", n, strings.Join(parts, " "))
+	// the client stream delivered in small reads: 1 byte, inside the request line, exactly one request, one more
+	if r.Chance(1, 3) {
+		op += fmt.Sprintf(" seg=%d", []int{1, 2, 7, 38, 39, 40, 78}[r.Intn(7)])
+	}
+	return op
 }
 
 func gen(r *vh.Rand) string {
@@ -455,6 +508,18 @@ func main() {
 					parts = append(parts, fmt.Sprintf("%c=%s", pointLetters[j], c))
 				}
 				emit("sv 2 " + strings.Join(parts, " "))
+			}
+			// a panic at this point, as the only filter and after a GoOn filter, 3 requests
+			for _, c := range []string{"p", "1,p"} {
+				var parts []string
+				for j := 0; j < 8; j++ {
+					x := "-"
+					if j == k {
+						x = c
+					}
+					parts = append(parts, fmt.Sprintf("%c=%s", pointLetters[j], x))
+				}
+				emit("sv 3 " + strings.Join(parts, " "))
 			}
 		}
 	}
